@@ -106,6 +106,16 @@ theorem c12_gen_explicit_setters (w a b : Bool) (d cur : BitVec 64) :
     Gen.CacheRead.cache_SetRefreshableAfter_c2 cur d = (BitVec.slt 0#64 d && (cur != d)) :=
   ⟨rfl, rfl, rfl, rfl, rfl⟩
 
+/-- C20: GetIfPresent and Compute count exactly one lookup each, a hit iff the code's test "a node was found and it has not
+    expired" holds (getNode's two miss branches, doCompute's recordStats test) — a Compute whose function panics counts nothing -/
+theorem c20_lookup_counts (c : Cfg) (s : Spec.State) (t : Tbl) (k : Nat) (onFound onAbsent : Spec.Act) (hs : s.m = absT t)
+    (hf : onFound ≠ .panic ∧ onFound ≠ .bad) (ha : onAbsent ≠ .panic ∧ onAbsent ≠ .bad) :
+    ((Spec.getIfPresent c s k).1.stats.hits = s.stats.hits + (if lookupIsHit t k s.now then 1 else 0) ∧
+     (Spec.getIfPresent c s k).1.stats.misses = s.stats.misses + (if lookupIsHit t k s.now then 0 else 1)) ∧
+    ((Spec.compute c s k onFound onAbsent).1.stats.hits = s.stats.hits + (if lookupIsHit t k s.now then 1 else 0) ∧
+     (Spec.compute c s k onFound onAbsent).1.stats.misses = s.stats.misses + (if lookupIsHit t k s.now then 0 else 1)) :=
+  ⟨getIfPresent_stats c s t k hs, compute_stats c s t k onFound onAbsent hs hf ha⟩
+
 /-! ### the model's tests are the code's (regenerated from cache_impl.go) -/
 
 /-- the model's deadlineAfter is the code's (Gen.Deadline, int64 semantics with explicit wrap) on int64 arguments -/
